@@ -47,9 +47,10 @@ func (c *c13ctx) write(s string, n int, pad byte, left bool) {
 	b.WriteString("P")
 	err, p := mon.Call(func() error { return codec.WriteFixedStringWithPadding(&b, s, n, rune(pad), left) })
 	c.writes++
-	got := b.Bytes()[1:]
+	all := b.Bytes()
+	got := all[min(1, len(all)):]
 	want := ref.FixWrite(s, n, pad, left)
-	if p != nil || err != nil || !bytes.Equal(got, want) || b.Bytes()[0] != 'P' {
+	if p != nil || err != nil || !bytes.Equal(got, want) || len(all) == 0 || all[0] != 'P' {
 		cls := fmt.Sprintf("C13/write/%s/pad>=0x80:%v", sideName(left), pad >= 0x80)
 		r.Violate(cls, "C13/write", map[string]any{"width": n, "pad": fmt.Sprintf("%#02x", pad), "side": sideName(left), "text": val.Hex([]byte(s), 64), "written": val.Hex(got, 64), "model": val.Hex(want, 64), "error": fmt.Sprint(err), "panic": fmt.Sprint(p)})
 	}
